@@ -135,6 +135,7 @@ def run(ctx):
                               'replayed model behaviour: real TaskQueue.%s returned %s, spec %s'
                               % (ev['n'], ev['r'], ex), dict(kind='history', history=h, rejected_at=i + 1))
                 break
+    consumers(ctx, thorough)
     ctx.cov['rule'] = ('all histories of length %d over {add x2 prios x3 tasks, remove x3, pop, peek smallest/largest, '
                        'empty, clear, iter} plus %d seeded random histories (length 30-200, float prios with ties and '
                        'inf, re-adds) plus %d TLC-simulated behaviours of the L2 model; non-trivial = contains a re-add, '
@@ -143,7 +144,32 @@ def run(ctx):
     ctx.cov['exhaustive'] = True
     ctx.assumptions += ['CPython heapq extracts the least entry (heap layout abstracted)',
                         'task keys are hashable identities (strings in the drivers)',
-                        'consumers of TaskQueue (clock queues, OscScore, Ppar, atexit queue) are observed in C07/C08/C14']
+                        'consumers: the NRT ClockScheduler and the OSC score are observed here through tie programs; RT clock queues in C08, Ppar in C14']
+
+
+def consumers(ctx, thorough):
+    """the library's own time-ordered collections, observed through what they order: the NRT ClockScheduler
+    (routines tied at one beat, re-scheduled while pending, re-timed by a tempo change) and the OSC score (bundles
+    stamped with equal times) - programs run under NrtMain and followed by TLC through the LogicalTime machine"""
+    import random
+    from props import _time as T
+    rnd = random.Random(ctx.seed + 99)
+    n = 1500 if thorough else 200
+    progs = [T.gen_tie_program(rnd, i) for i in range(n)]
+    tr = T.run_mode(ctx, progs, 'nrt')
+    for t in tr:
+        t['id'] += 5_000_000
+    v = T.validate(ctx, tr)
+    ctx.cov['evaluations'] += len(tr)
+    ctx.cov['consumer_programs'] = len(tr)
+    for t in tr:
+        ctx.nontrivial([t['prog']['routines'], t['prog']['main']])
+        r = v[t['id']]
+        if r is not None:
+            at, why = r
+            ctx.violation('consumer:nrt:%s' % why,
+                          'time-ordered consumer (NRT clock scheduler / OSC score) out of (time, scheduling) order: %s at event %d' % (why, at),
+                          dict(kind='tie-program', program=t['prog'], rejected_at=at, why=why, events=t['ev'][:at + 1], score=t.get('score')))
 
 
 def run_histories(ctx, hs, base=0):
@@ -158,6 +184,15 @@ def run_histories(ctx, hs, base=0):
 
 
 def replay(ctx, rp):
+    if rp['replay'].get('kind') == 'tie-program':
+        from props import _time as T
+        tr = T.run_mode(ctx, [dict(rp['replay']['program'], id=0)], 'nrt', nproc=1)
+        v = T.validate(ctx, tr)
+        ctx.cov['evaluations'] = 1
+        ctx.sample(dict(verdict=v[0]))
+        if v[0] is not None:
+            ctx.violation('consumer:nrt:%s' % v[0][1], 'replayed: %s at %d' % (v[0][1], v[0][0]), rp['replay'])
+        return
     h = rp['replay']['history']
     traces = run_histories(ctx, [h])
     verdicts = ctx.validate('TraceTaskQueue', 'TraceTaskQueue.cfg', traces)
